@@ -23,7 +23,7 @@ from .tokdiff import TokOracle, help_names, assume_not_named, run_tok_job, finis
 from .corpus import CORPUS
 
 PROP = "C07"
-GRAMMARS = ["a1", "a2", "a3"]
+GRAMMARS = ["a1", "a2", "a3", "a4"]
 
 F_A = G.Named("req_flag", "a", ["alpha"])
 F_B = G.Named("arg", "b", ["beta"], arity="req")
@@ -35,6 +35,42 @@ F_S = G.Named("switch", "s", ["sw"])
 def alt_val(name, *vals):
     idx = {"A": 0, "B": 1, "C": 2}[name]
     return Adt("Alt", idx, tuple(vals))
+
+
+F3 = [G.Named("req_flag", "a", ["alpha"]), G.Named("req_flag", "b", ["beta"]), G.Named("req_flag", "c", ["gamma"])]
+
+
+def spec_flag3(ex, env, items):
+    """a4: repeated choice between three flags: one value per occurrence, in command line order"""
+    n = len(items)
+    vals = []
+    sw = 0
+    for i, it in enumerate(items):
+        if it.kind == "dd":
+            if i + 1 < n:
+                return ("fail", "positional data", None)
+            continue
+        if it.kind not in ("short", "long"):
+            return ("fail", "unclaimed item", None)
+        hit = None
+        for k, f in enumerate(F3):
+            if G.name_match(ex, env, f, it):
+                hit = k
+                break
+        if hit is not None:
+            if it.adj:
+                return ("fail", "flag with attached value", None)
+            vals.append(Adt("Flag3", hit, ()))
+            continue
+        if G.name_match(ex, env, F_S, it):
+            if it.adj:
+                return ("fail", "flag with attached value", None)
+            sw += 1
+            continue
+        return ("fail", "unknown name", None)
+    if sw > 1:
+        return ("fail", "switch twice", None)
+    return ("ok", (Seq(tuple(vals)), sw == 1))
 
 
 def spec_alt(ex, env, mode, items):
@@ -126,7 +162,7 @@ class Oracle(TokOracle):
     def judge(self, ex, g, words, cls, payload, state, report, out):
         items = G.items_of_words(words)
         env = spec_env(ex)
-        mode = {"a1": "bare", "a2": "optional", "a3": "many"}[g.name]
+        mode = {"a1": "bare", "a2": "optional", "a3": "many", "a4": "flag3"}[g.name]
 
         def leaf(ex2, sres):
             out["spec_leaves"] += 1
@@ -146,21 +182,18 @@ class Oracle(TokOracle):
                 return
             if sres[1] == "conflict":
                 out["conflicts"] = out.get("conflicts", 0) + 1
-        ex.sub_explore(lambda e: spec_alt(e, env, mode, items), leaf)
+        ex.sub_explore(lambda e: spec_flag3(e, env, items) if mode == "flag3" else spec_alt(e, env, mode, items), leaf)
 
 
 def make_jobs(tier, seed, build):
     jobs = []
-    nmax = 4 if tier == "quick" else 5
+    nmax = 3 if tier == "quick" else 4
     for gname in GRAMMARS:
         g = CORPUS[gname]
-        for n in range(0, nmax + 1):
-            for shape in tok.all_shapes(n, g.decl):
-                if tier == "quick" and n == 4 and ("dd" in shape or shape.count("word") > 1):
-                    continue
-                if n == 5 and ("dd" in shape or shape.count("word") > 1):
-                    continue
-                jobs.append({"id": "%s:%s" % (gname, ",".join(shape)), "grammar": gname, "shape": shape, "fs": "none"})
+        for shape in tok.all_shapes_by_words(nmax + (1 if gname == "a4" and tier != "quick" else 0), g.decl):
+            if len(shape) >= 4 and ("dd" in shape or shape.count("word") > 1):
+                continue
+            jobs.append({"id": "%s:%s" % (gname, ",".join(shape)), "grammar": gname, "shape": shape, "fs": "none"})
     return jobs
 
 
@@ -169,8 +202,8 @@ def run_job(job, build):
 
 
 def finish(results, jobs, build, out, tier, seed, wall):
-    nmax = 4 if tier == "quick" else 5
+    nmax = 3 if tier == "quick" else 4
     ev = finish_tok(PROP, results, jobs, build, out, tier, seed, wall, Oracle(), CORPUS,
-                    {"items": "0..=%d (largest size: shapes without `--` and with at most one plain word)" % nmax, "grammars": GRAMMARS, "alternatives": 3})
+                    {"argv_words": "0..=%d (up to twice as many items; 4+ words: shapes without `--` and with at most one plain word)" % nmax, "grammars": GRAMMARS, "alternatives": 3})
     ev["coverage"]["conflict_paths"] = sum(r.get("conflicts", 0) for r in results)
     return ev
